@@ -540,14 +540,14 @@ def judge_lang(inp, obs, lr):
 CLAUSES = [
     Clause("automaton_corr", "corr", gen_aut, run_aut, judge_aut, lean=lean_aut,
            site="coxeter.CoxeterGroup.automaton / coxeter_automaton.find_small_roots, generate_automaton",
-           budget={"quick": 100, "thorough": 1500},
+           budget={"quick": 100, "thorough": 1000},
            what="small roots (vectors, neighbours) and automaton (up to BFS renumbering) vs the Lean model over Q; all rank-2/3 "
                 "matrices over {2..7,inf} up to relabelling (inf written 0/-1/-3), samples of rank 4-5, both constructor routes"),
     Clause("even_corr", "corr", gen_even, run_even, judge_even, lean=lean_even,
-           site="coxeter.CoxeterGroup.automaton(even_length=True) / fsa.automaton_multiple", budget={"quick": 80, "thorough": 1200},
+           site="coxeter.CoxeterGroup.automaton(even_length=True) / fsa.automaton_multiple", budget={"quick": 80, "thorough": 800},
            what="even_automaton of the implementation's table vs Lean evenAutomaton (up to BFS renumbering)"),
     Clause("language_oracle", "oracle", gen_lang, run_lang, judge_lang, lean=lean_lang,
-           site="coxeter.CoxeterGroup.automaton", budget={"quick": 400, "thorough": 1000},
+           site="coxeter.CoxeterGroup.automaton", budget={"quick": 400, "thorough": 650},
            what="BOUNDED TEST of the unproved clause: accepted words up to length L vs independent Tits braid-move solver and "
                 "canonical-representation enumeration: geodesic = reduced, shortlex = least reduced expression (one per element), "
                 "even variants, growth counts, injectivity of canonical images"),
